@@ -280,7 +280,22 @@ def _close(xr, xm, tol=XTOL):
 
 
 # ------------------------------------------------------------------------------------------------ trust-region tie
+_TMEMO = {}
+
+
 def _run_trust_recorded(case):
+    """memoised: the trust-region tie and the oracle share one real run per case"""
+    import json
+    key = json.dumps({k: case.get(k) for k in ("poly", "trig", "x0", "maxiter", "absdelta", "trust_radius", "trust_maxiter")},
+                     sort_keys=True, default=str)
+    if key not in _TMEMO:
+        if len(_TMEMO) > 2000:
+            _TMEMO.clear()
+        _TMEMO[key] = _run_trust_recorded_(case)
+    return _TMEMO[key]
+
+
+def _run_trust_recorded_(case):
     """real `_trust_ncg` with a recording wrapper around the real sub-problem solver (host callback)"""
     _housekeeping()
     J = _jax()
@@ -295,7 +310,7 @@ def _run_trust_recorded(case):
         return r
     try:
         fun, x0, flat, _ = _mk(dict(case, split=0))
-        kw = {"maxiter": case.get("maxiter"), "subproblem": sub}
+        kw = {"maxiter": case.get("trust_maxiter", case.get("maxiter")), "subproblem": sub}
         if case.get("absdelta") is not None:
             kw["absdelta"] = float(Fraction(case["absdelta"]))
         if case.get("trust_radius") is not None:
@@ -316,7 +331,8 @@ def _flat_any(x):
 def _trust_model_line(case, rec):
     fin = np.finfo(np.float64)
     return {"op": "trust", "x0": case["x0"], "poly": case["poly"],
-            "maxiter": 200 if case.get("maxiter") is None else case["maxiter"], "absdelta": case.get("absdelta"),
+            "maxiter": 200 if case.get("trust_maxiter", case.get("maxiter")) is None
+            else case.get("trust_maxiter", case.get("maxiter")), "absdelta": case.get("absdelta"),
             "gtol": rs(1e-4), "maxTr": rs(1000.0), "initTr": rs(float(Fraction(case.get("trust_radius") or 1))),
             "eta": rs(0.15), "eps": rs(6.0 * float(fin.eps)),
             "subs": [{"step": [rs(float(v)) for v in np.atleast_1d(st)], "hits": h, "predF": rs(pf)} for st, h, pf in rec]}
@@ -389,7 +405,7 @@ def oracle(case):
     scale = abs(f0) + 1.0
     res = {}
     for variant in ("eager", "static") + (("trust",) if case.get("trust", True) and not case.get("cgfake") else ()):
-        o = _run_real(case, variant, None, pinned)
+        o = _run_trust_recorded(case)[0] if variant == "trust" else _run_real(case, variant, None, pinned)
         res[variant] = o
         if "error" in o:
             if o["error"] != "ValueError":
@@ -544,7 +560,8 @@ def _gen_case(rng, quick, modelled=True):
         x0 = [Fraction(rng.randint(-12, 12), 8) for _ in range(n)]
     case = {"op": "ncg", "family": family, "poly": poly, "x0": [rs(v) for v in x0], "split": rng.randint(0, n - 1) if n > 1 else 0,
             "miniter": rng.choice([None, None, 0, 1, 2]), "maxiter": rng.choice([1, 1, 2, 2, 3, 3, 4] if modelled else [1, 2, 3, 5, 8, None]),
-            "absdelta": None, "xtol": rs(rng.choice([1e-5, 1e-3, 1e-2, 1e-1])), "trust": True}
+            "absdelta": None, "xtol": rs(rng.choice([1e-5, 1e-3, 1e-2, 1e-1])),
+            "trust": (not quick) or rng.random() < 0.35, "trust_maxiter": rng.choice([1, 3, 6, 12])}
     if rng.random() < 0.4:
         case["absdelta"] = rs(rng.choice([1e-6, 1e-3, 1e-2, 1e-1, 1.0]))
     if rng.random() < 0.05:
@@ -839,9 +856,8 @@ def run(ctx):
     B = 40
     for a in range(0, len(cases), B):
         _check(ctx, cases[a:a + B])
-    tcases = [c for c in cases if c.get("poly") and not c.get("cgfake") and c.get("maxiter") != 0]
-    tcases = [dict(c, maxiter=ctx.rng.choice([1, 3, 6, 12])) if not c.get("trust_target") else c for c in tcases]
-    _trust_tie(ctx, tcases[:ctx.n(6, 60)])
+    tcases = [c for c in cases if c.get("poly") and not c.get("cgfake") and c.get("maxiter") != 0 and c.get("trust", True)]
+    _trust_tie(ctx, tcases[:ctx.n(8, 60)])
 
 
 def search(ctx):
